@@ -49,7 +49,15 @@ def main():
                 cells.append("VIOLATION no-failing-input-found")
             else:
                 cells.append("**missed**")
-        print(f"| {d.name} | {needs} | {' / '.join(cells)} |")
+        also = []
+        for q in sorted({k.split(":")[1] for k in r if ":" in k}):
+            sub = []
+            for s in ("seed0", "seed1"):
+                x = r.get(f"{s}:{q}")
+                sub.append("not run" if not x else "VIOLATION with failing input" if x["violations"] > x["no_failing_input"]
+                           else "VIOLATION no-failing-input-found" if x["violations"] else "**missed**")
+            also.append(f"; check of {q}: {' / '.join(sub)}")
+        print(f"| {d.name} | {needs} | {' / '.join(cells)}{''.join(also)} |")
 
 
 if __name__ == "__main__":
